@@ -405,3 +405,91 @@ func scopesPerRegistrySweep(tier string) *SeqJob {
 	}
 	return j
 }
+
+// bucketSetsPerRootSweep (C20): N distinct bucket sets are used under one root (or under a second root of the
+// same process) after a first group of histograms was created; then the first group records one sample between its
+// own bounds. Each of them must still deliver it in the bucket of its own set - whatever a cache or pool did with
+// the sets that came later.
+func bucketSetsPerRootSweep(tier string) *SeqJob {
+	sizes := []int{10, 100, 255, 256, 257, 600, 1300}
+	if tier == "thorough" {
+		sizes = append(sizes, 3000, 6000, 20000)
+	}
+	run := func(n int, cached, otherRoot bool) (string, string, int) {
+		rec := &Recorder{NoPoints: true}
+		root, _ := tally.VerifNewRootScope(scopeOpts(rec, cached, false), 0, 1)
+		const keep = 40
+		kept := make([]tally.Histogram, keep)
+		for i := range kept {
+			kept[i] = root.SubScope(fmt.Sprintf("k%02d", i)).Histogram("h", tally.ValueBuckets{float64(i), float64(i) + 0.5})
+		}
+		churn := tally.Scope(root)
+		if otherRoot {
+			rec2 := &Recorder{NoPoints: true}
+			churn, _ = tally.VerifNewRootScope(scopeOpts(rec2, cached, false), 0, 1)
+		}
+		for j := 0; j < n; j++ {
+			churn.SubScope("x").Histogram(fmt.Sprintf("h%d", j), tally.ValueBuckets{1000 + float64(j), 2000 + float64(j), 3000 + float64(j)}).RecordValue(1)
+		}
+		for i, h := range kept {
+			h.RecordValue(float64(i) + 0.25)
+		}
+		tally.VerifReportOnce(root)
+		seen := map[string]bool{}
+		for _, e := range rec.Log {
+			if e.Kind == "hvalue" && e.I != 0 && len(e.Name) == 5 && e.Name[0] == 'k' {
+				var i int
+				fmt.Sscanf(e.Name, "k%02d.h", &i)
+				if e.LoF != float64(i) || e.HiF != float64(i)+0.5 || e.I != 1 {
+					return "histogram-uses-foreign-bounds", fmt.Sprintf("%d further bucket sets were used (under %s) after histogram %s was created with [%d %v]: its sample %v was delivered as %d sample(s) in (%v,%v]",
+						n, map[bool]string{true: "another root of the process", false: "the same root"}[otherRoot], e.Name, i, float64(i)+0.5, float64(i)+0.25, e.I, e.LoF, e.HiF), n + keep
+				}
+				seen[e.Name] = true
+			}
+		}
+		if len(seen) != keep {
+			return "histogram-sample-lost", fmt.Sprintf("%d of %d histograms delivered their sample after %d further bucket sets", len(seen), keep, n), n + keep
+		}
+		return "", "", n + keep
+	}
+	j := &SeqJob{Property: "C20", Name: "size-sweep-bucket-sets-per-process", Shards: 2}
+	j.Run = func(ctx *SeqCtx) {
+		k := 0
+		for _, n := range sizes {
+			for _, cached := range []bool{false, true} {
+				for _, other := range []bool{false, true} {
+					k++
+					if !ctx.Mine(k) {
+						continue
+					}
+					if ctx.Expired() {
+						return
+					}
+					n, cached, other := n, cached, other
+					steps := 0
+					cl, det := guard(func() (string, string) { a, b, s := run(n, cached, other); steps = s; return a, b })
+					ops := []string{fmt.Sprint(n), fmt.Sprint(cached), fmt.Sprint(other)}
+					ctx.Case(steps, true, func() string { return fmt.Sprint("bucket sets ", ops) })
+					ctx.State(fmt.Sprint(ops))
+					if cl != "" {
+						ctx.Fail(cl, det, ops)
+						if ctx.viol != nil {
+							return
+						}
+					}
+				}
+			}
+		}
+		ctx.Alphabet(fmt.Sprintf("numbers of distinct bucket sets used after the histograms under test were created: %v", sizes), "under the same root and under a second root of the process")
+		ctx.DepthDone(1)
+	}
+	j.Replay = func(ops []string) (string, string) {
+		var n int
+		var cached, other bool
+		fmt.Sscan(ops[0], &n)
+		fmt.Sscan(ops[1], &cached)
+		fmt.Sscan(ops[2], &other)
+		return guard(func() (string, string) { a, b, _ := run(n, cached, other); return a, b })
+	}
+	return j
+}
